@@ -302,6 +302,92 @@ pub fn decode_case(u: &mut FuzzInput) -> BarCase {
     BarCase { rows, cols, len, tpl, ops }
 }
 
+// ------------------------------------------------------------------------------------------
+// rate-limited targets: forced operations must still leave exactly log ++ frame
+
+#[derive(Debug, Clone, Serialize, Deserialize)]
+pub struct LimitedCase {
+    bar: BarCase,
+    hz: u8,
+    /// ticks at the creation instant (exhaust the 20-frame burst)
+    burn: u8,
+    step_ms: u32,
+}
+
+fn run_limited(c: &LimitedCase) -> CaseResult {
+    let _clk = clock::Armed::new();
+    let b = &c.bar;
+    let (rows, cols) = (b.rows.max(1) as usize, b.cols.max(1) as usize);
+    let vt = VTerm::new(rows, cols).with_snapshots();
+    let mut st = BarState::new(b.len, b.tpl.clone());
+    let mut v = Verdict::default();
+    if height_of(&st.frame(), cols) > rows {
+        return Ok(v);
+    }
+    let pb = Guarded::new(ProgressBar::with_draw_target(b.len, ProgressDrawTarget::term_like_with_hz(vt.boxed(), c.hz.max(1))));
+    pb.set_style(b.tpl.style());
+    for _ in 0..c.burn {
+        pb.tick();
+    }
+    vt.take_frames();
+    let mut log: Vec<String> = vec![];
+    let (mut skipped, mut forced_after_skip) = (false, false);
+    for (i, op) in b.ops.iter().enumerate() {
+        let next = apply_model(&st, op);
+        if height_of(&next.frame(), cols) > rows {
+            continue;
+        }
+        clock::advance(Duration::from_millis(c.step_ms as u64));
+        let log_before = log.clone();
+        catch(|| exec(&pb, &vt, op)).map_err(|p| Fail::new("panic", format!("op #{i} {op:?} panicked: {p}")))?;
+        st = next;
+        match op {
+            BOp::Println(t) => log.extend(println_lines(t)),
+            BOp::Suspend(l) => log.extend(l.iter().cloned()),
+            _ => {}
+        }
+        let frames = vt.take_frames();
+        let forced = matches!(op, BOp::Println(_) | BOp::Suspend(_) | BOp::Finish | BOp::FinishWithMessage(_) | BOp::FinishAndClear | BOp::Abandon | BOp::AbandonWithMessage(_) | BOp::SetTabWidth(_));
+        let ctx = format!("op #{i} {op:?} on a {} Hz target after {} burn ticks, step {} ms ({}x{} terminal, ops {:?})", c.hz, c.burn, c.step_ms, rows, cols, &b.ops[..=i]);
+        if forced {
+            ensure!(!frames.is_empty(), "forced_draw_skipped", "{ctx}: the call painted nothing");
+            if matches!(op, BOp::Suspend(_)) {
+                ensure!(frames.len() >= 2, "suspend_clear_skipped", "{ctx}: suspend must clear the frame before the closure runs and redraw afterwards; {} frame(s) were painted", frames.len());
+                check_screen(&frames[0].rows, None, &log_before, &[], cols, &format!("{ctx}, cleared screen before the closure"))?;
+            }
+            check_screen(&vt.rows(), Some(vt.lock().grid.probe()), &log, &st.frame(), cols, &ctx)?;
+            forced_after_skip |= skipped;
+        } else if matches!(op, BOp::Tick | BOp::Inc(_) | BOp::SetPos(_) | BOp::SetMessage(_) | BOp::SetPrefix(_) | BOp::SetLength(_) | BOp::Reset) && frames.is_empty() {
+            skipped = true;
+        }
+        // whatever was painted by an ordinary draw shows the current state
+        if !forced && !frames.is_empty() {
+            check_screen(&vt.rows(), None, &log, &st.frame(), cols, &ctx)?;
+        }
+    }
+    v.nontrivial = forced_after_skip;
+    v.label_if(skipped, "ordinary_draw_skipped");
+    v.label_if(forced_after_skip, "forced_op_after_skipped_draw");
+    Ok(v)
+}
+
+/// F-C01b on a rate-limited target: ordinary draws between the text-only println and the suspend may have
+/// been skipped, so the cursor can still be parked on the log line - any suspend with an empty first
+/// line after a println falls under the finding.
+fn limited_signature(c: &LimitedCase) -> Option<&'static str> {
+    let mut printed = false;
+    for op in &c.bar.ops {
+        match op {
+            BOp::Println(_) => printed = true,
+            BOp::Suspend(l) if printed && l.first().map_or(false, |x| console::measure_text_width(x) == 0) => {
+                return Some("ordinary_empty_line_after_text_only_draw");
+            }
+            _ => {}
+        }
+    }
+    signature(&c.bar)
+}
+
 pub fn property() -> Property {
     let w = default_workers();
     Property {
@@ -323,6 +409,21 @@ pub fn property() -> Property {
             essential: &["shrink", "grow", "wrap", "exact_multiple_of_width", "empty_first_line_frame", "text_only_draw", "frame_after_text_only_draw", "clear", "reset", "log_wraps"],
             workers: w,
             decode: Some(decode_case),
+        }),
+        Box::new(Gen::<LimitedCase> {
+            name: "rate_limited",
+            rule: "the same histories on term_like_with_hz targets (1/20/255 Hz) with the 20-frame burst used up first and a clock step of 0/1/100 ms: ordinary draws may be skipped, but every forced operation (println, suspend, finish*, abandon*, set_tab_width) must paint and leave exactly printed lines ++ current frame (suspend: a cleared screen before the closure runs); non-trivial = a forced operation after a skipped ordinary draw",
+            strategy: |t| {
+                (case_strategy(t), prop_oneof![Just(1u8), Just(20), Just(255)], prop_oneof![1 => Just(0u8), 3 => 21u8..30], prop_oneof![3 => Just(0u32), 1 => Just(1u32), 1 => Just(100u32)])
+                    .prop_map(|(bar, hz, burn, step_ms)| LimitedCase { bar, hz, burn, step_ms })
+                    .boxed()
+            },
+            cases: |t| t.pick(3_000, 600_000),
+            run: run_limited,
+            signature: limited_signature,
+            essential: &["ordinary_draw_skipped", "forced_op_after_skipped_draw"],
+            workers: w,
+            decode: None,
         })],
     }
 }
